@@ -38,7 +38,7 @@ ASSUMPTIONS = [
 ]
 PROBES = ("suppress_then_raise", "replacement_chain", "enter_failed", "callback_cannot_suppress", "aclose_midway",
           "pop_all", "unwind_again", "block_raises", "sync_cm", "pushed_callable", "ambient_exception", "falsy_exception",
-          "stack_reused_after_unwind", "exit_raises_keyboardinterrupt_or_systemexit", "exit_raises_the_blocks_exception_object_again", "pop_all_inside_aenter", "pop_all_inside_an_exit", "exit_raises_stopiteration", "dual_protocol_manager")
+          "stack_reused_after_unwind", "exit_raises_keyboardinterrupt_or_systemexit", "exit_pushed_during_an_enter", "exit_raises_the_blocks_exception_object_again", "pop_all_inside_aenter", "pop_all_inside_an_exit", "exit_raises_stopiteration", "dual_protocol_manager")
 
 KINDS = ("async_cm", "sync_cm", "push_async_cm", "push_sync_cm", "push_async_fn", "push_sync_fn",
          "callback_sync", "callback_async")
@@ -60,6 +60,14 @@ class TaggedInterrupt(KeyboardInterrupt):
 class TaggedSystemExit(SystemExit):
     def __init__(self, tag):
         SystemExit.__init__(self, repr(tag))
+        self.tag = tag
+
+
+class TaggedAttributeError(AttributeError):
+    """What a failing ``__aenter__`` may well raise - and what a missing protocol method looks like to a careless caller"""
+
+    def __init__(self, tag):
+        AttributeError.__init__(self, repr(tag))
         self.tag = tag
 
 
@@ -141,11 +149,16 @@ def tag(exc):
 
 
 class Entry:
-    __slots__ = ("name", "kind", "behave", "susp", "enter_fails", "args", "dual", "same_as_previous")
+    __slots__ = ("name", "kind", "behave", "susp", "enter_fails", "args", "dual", "same_as_previous", "via_enter", "push_in_enter")
+
+    def __init__(self):
+        self.via_enter = False      # this exit is pushed onto the stack by the __aenter__ of the next entry
+        self.push_in_enter = None   # name of the entry this manager's __aenter__ pushes
 
     def describe(self):
         return {"name": self.name, "kind": self.kind, "exit": self.behave, "suspends": self.susp,
                 "enter_fails": self.enter_fails, "also_offers_sync_protocol": self.dual,
+                "pushed_by_the_enter_of_the_next_entry": self.via_enter,
                 "same_object_as_previous_entry": self.same_as_previous}
 
 
@@ -181,6 +194,8 @@ class Env:
         self.popped_in_enter = []
         self.registering_stack = None
         self.block_exc = None
+        self.enter_type = None  # exception class of failing enters (None: exc_type)
+        self.via_objs = {}
 
     async def pause(self, n):
         for _ in range(n):
@@ -226,8 +241,11 @@ class Env:
             async def __aenter__(self):
                 env.log.append(("enter", e.name))
                 await env.pause(e.susp)
+                if e.push_in_enter is not None and env.registering_stack is not None:
+                    # the manager hands a clean-up of its own to the stack it is being entered on
+                    env.registering_stack.push(env.via_objs[e.push_in_enter])
                 if e.enter_fails:
-                    raise env.exc_type(("enter", e.name))
+                    raise (env.enter_type or env.exc_type)(("enter", e.name))
                 if env.pop_in_enter == e.name:
                     # the manager splits off everything registered so far while it is being entered
                     env.popped_in_enter.append(env.registering_stack.pop_all())
@@ -255,7 +273,7 @@ class Env:
             def __enter__(self):
                 env.log.append(("enter", e.name))
                 if e.enter_fails:
-                    raise env.exc_type(("enter", e.name))
+                    raise (env.enter_type or env.exc_type)(("enter", e.name))
                 return e.name
 
             def __exit__(self, et, ev, tb):
@@ -364,7 +382,13 @@ async def run_program_stack(entries, env, block_raises, res, ambient=False):
     async def go():
         async with L.ExitStack() as stack:
             for e, obj in zip(entries, objs):
+                if e.via_enter:
+                    env.via_objs[e.name] = obj  # registered by the next entry's __aenter__, not from here
+                    continue
+                if e.push_in_enter is not None:
+                    env.registering_stack = stack
                 await register(stack, e, obj)
+                env.registering_stack = None
             env.log.append(("body",))
             if block_raises:
                 env.block_exc = env.block_type("block")
@@ -373,7 +397,7 @@ async def run_program_stack(entries, env, block_raises, res, ambient=False):
     try:
         await in_ambient(ambient, go)
         res.append(("suppressed",) if block_raises else ("normal",))
-    except (Tagged, GeneratorExit, TaggedInterrupt, TaggedSystemExit) as err:
+    except (Tagged, GeneratorExit, TaggedInterrupt, TaggedSystemExit, TaggedAttributeError) as err:
         res.append(("raised", err.tag))
     except Exception as err:
         res.append(("raised", type(err).__name__))
@@ -392,7 +416,7 @@ async def run_program_nested(entries, env, block_raises, res, ambient=False):
         await in_ambient(ambient, lambda: nested(entries, objs, 0, body))
         # reaching here: completed normally or an exception was suppressed on the way
         res.append(("completed",))
-    except (Tagged, GeneratorExit, TaggedInterrupt, TaggedSystemExit) as err:
+    except (Tagged, GeneratorExit, TaggedInterrupt, TaggedSystemExit, TaggedAttributeError) as err:
         res.append(("raised", err.tag))
     except Exception as err:
         res.append(("raised", type(err).__name__))
@@ -423,6 +447,19 @@ def gen(ch):
         for i in range(1, n):
             if sc.entries[i].same_as_previous:  # one object, one behaviour
                 sc.entries[i].behave = sc.entries[i - 1].behave
+        cands = [i for i, e in enumerate(sc.entries) if e.kind == "async_cm" and not e.same_as_previous
+                 and not (i + 1 < n and sc.entries[i + 1].same_as_previous)]
+        if cands and ch.chance(1, 5):
+            # the __aenter__ of one manager pushes an exit of its own onto the stack it is being entered on: that exit
+            # is registered first (like a statement around the manager's)
+            i = cands[ch.draw(len(cands))]
+            extra = Entry()
+            extra.name, extra.kind, extra.behave, extra.susp = sc.entries[i].name + "<", "push_sync_fn", BEHAVE[ch.draw(3)], 0
+            extra.enter_fails, extra.args, extra.dual, extra.same_as_previous = False, (), False, False
+            extra.via_enter = True
+            sc.entries[i].push_in_enter = extra.name
+            sc.entries.insert(i, extra)
+    sc.enter_attr = ch.chance(1, 3)  # failing enters raise an AttributeError (tagged subclass)
     sc.block_genexit = ch.chance(1, 8)  # the block ends with exactly GeneratorExit (tagged) instead of an Exception
     sc.ambient = ch.chance(1, 3)   # everything happens while the caller handles an unrelated exception
     sc.falsy_exc = ch.chance(1, 4)  # all exceptions involved test false
@@ -438,9 +475,15 @@ def gen(ch):
             if e.behave != "pop_all_inside":
                 e.behave = "push_inside"
         if n >= 1 and ch.chance(1, 4):
-            # one exit raises StopIteration (of all exceptions)
+            # one exit raises KeyboardInterrupt / SystemExit: the unwind it is part of ends with that - and the stack is
+            # as usable afterwards as after any other unwind
             e = sc.entries[ch.draw(n)]
             if e.behave not in ("pop_all_inside", "push_inside"):
+                e.behave = "raise_interrupt"
+        if n >= 1 and ch.chance(1, 4):
+            # one exit raises StopIteration (of all exceptions)
+            e = sc.entries[ch.draw(n)]
+            if e.behave not in ("pop_all_inside", "push_inside", "raise_interrupt"):
                 e.behave = "raise_stop"
         # positions (in registration order) at which extra ops happen
         steps = []
@@ -478,7 +521,7 @@ async def run_history(sc, env, res, out_probe=None):
         env.current_stack = stk
         try:
             await in_ambient(sc.ambient, stk.aclose)
-        except Tagged as err:
+        except (Tagged, TaggedInterrupt, TaggedSystemExit) as err:
             out_tag = err.tag
         except RuntimeError:
             out_tag = "RuntimeError"
@@ -527,7 +570,7 @@ async def run_history(sc, env, res, out_probe=None):
     out_tag = None
     try:
         await in_ambient(sc.ambient, block)
-    except (Tagged, GeneratorExit) as err:
+    except (Tagged, GeneratorExit, TaggedInterrupt, TaggedSystemExit) as err:
         out_tag = err.tag
         res.append(("raised", err.tag))
     except RuntimeError:
@@ -578,6 +621,7 @@ def execute(st, ctx):
     exc_type = FalsyTagged if sc.falsy_exc else Tagged
     block_type = tagged_generator_exit if sc.block_genexit else None
     env_a = Env(sim, "stack", exc_type, block_type)
+    env_a.enter_type = TaggedAttributeError if sc.enter_attr else None
     res_a, res_r = [], []
     behaves = [e.behave for e in sc.entries]
     kinds = [e.kind for e in sc.entries]
@@ -595,6 +639,7 @@ def execute(st, ctx):
 
     if sc.mode == "program":
         env_r = Env(sim, "nested", exc_type, block_type)
+        env_r.enter_type = env_a.enter_type
         sim.spawn(run_program_stack(sc.entries, env_a, sc.block_raises, res_a, sc.ambient))
         sim.spawn(run_program_nested(sc.entries, env_r, sc.block_raises, res_r, sc.ambient))
         run_sim(sim)
@@ -724,6 +769,8 @@ def execute(st, ctx):
         out.probes["exit_raises_stopiteration"] = 1
     if any(e.dual for e in sc.entries):
         out.probes["dual_protocol_manager"] = 1
+    if any(e.via_enter for e in sc.entries):
+        out.probes["exit_pushed_during_an_enter"] = 1
     if any(b == "raise_interrupt" for b in behaves) and any(x[0] == "exit" for x in env_a.log):
         out.probes["exit_raises_keyboardinterrupt_or_systemexit"] = 1
     if any(b == "reraise_block" for b in behaves) and sc.block_raises:
